@@ -24,6 +24,7 @@ type c20Args struct {
 	Threads int    `json:"threads"` // 2..3 caller goroutines
 	Remote  bool   `json:"remote"`  // plus one goroutine applying a remote pack
 	Packer  bool   `json:"packer"`  // plus one goroutine calling CreatePushPullPack
+	Stmt    bool   `json:"stmt"`    // every statement boundary of transaction.go is a scheduling point
 }
 
 func init() {
@@ -38,6 +39,13 @@ func init() {
 			x.sched = sched
 			vsync.Hook = func(p string) { sched.Gate("sync." + p) }
 			verifrt.GoHook = func(site string) { sched.Gate("go:" + site) }
+			if a.Stmt {
+				verifrt.PointHook = func(site string) {
+					if strings.HasPrefix(site, "transaction.go:") { // wired.go points belong to the c20sync scenario
+						sched.Gate("pt:" + site)
+					}
+				}
+			}
 			// the remote pack: two operations of the other replica
 			var remotePack *model.PushPullPack
 			if a.Remote {
@@ -204,6 +212,7 @@ func init() {
 						return viol("C20:transaction-saw-foreign-effect", "reads inside the transaction body: %s; schedule %v", rd, x.trace)
 					}
 				}
+				x.outcome = fmt.Sprintf("calls=%v tx=%v packs=%v", okCalls, txReads, packs)
 				// no update lost
 				if a.Type == "counter" {
 					want := int32(0)
@@ -257,7 +266,7 @@ func init() {
 				}
 				return nil
 			}
-			return acts, nil, atEnd, func() { vsync.Hook = nil; verifrt.GoHook = nil }
+			return acts, nil, atEnd, func() { vsync.Hook = nil; verifrt.GoHook = nil; verifrt.PointHook = nil }
 		}}
 	}
 }
